@@ -18,6 +18,7 @@ import (
 	"path/filepath"
 	"sort"
 	"strings"
+	"sync"
 	"testing"
 	"time"
 
@@ -115,7 +116,7 @@ var c20rLifetimesMs = []int64{0, 1, 499, 500, 59499, 59500, 60000, 61000, 119499
 	3601000, 7140000, 7199000, 57600000, 86340000, 86400000, 3888000000}
 
 func TestVerif_C20R(t *testing.T) {
-	res := newVerifResult("random recorder histories (record auth / certificate / service-provider login / web login for 3 users, time passing by seconds .. 40 days incl. steps that put an entry exactly at retention-1/retention/retention+1, hourly expiry, save -> reload, read-out) against the real eventrecorder functions; one run through New(), the event loop, its 5 s save timer and a restart; non-trivial = a reload or expiry that had something to drop or at least two entries to keep in order; distinct by (operation kinds, ages)")
+	res := newVerifResult("random recorder histories (record auth / certificate / service-provider login / web login for 3 users, time passing by seconds .. 40 days incl. steps that put an entry exactly at retention-1/retention/retention+1, hourly expiry, save -> reload, read-out) against the real eventrecorder functions; event-loop scenarios through New(), the six channels, history requests, the 5 s save timer and restarts (E=event R=request S=save X=restart); non-trivial = a reload or expiry that had something to drop or at least two entries to keep in order; distinct by (operation kinds, ages)")
 	dir, err := ioutil.TempDir("", "verif_c20r")
 	if err != nil {
 		t.Fatal(err)
@@ -294,7 +295,7 @@ func TestVerif_C20R(t *testing.T) {
 		res.bump("histories")
 	}
 	// through New(): channels -> event loop -> save timer -> restart
-	c20rEndToEnd(t, res, filepath.Join(dir, "e2e.gob"))
+	c20rLoops(t, res, dir)
 
 	shards := 1
 	if verifThorough() {
@@ -316,7 +317,7 @@ func TestVerif_C20R(t *testing.T) {
 		sb.WriteString(strings.Join(cases[lo:hiX], ";\n"))
 		sb.WriteString("\n].\n")
 		sb.WriteString("Definition c20r_mismatches := Eval vm_compute in map (fun i => (i + " + fmt.Sprint(lo) + ")%nat) (mismatches (fun h => negb (rcheck [] h)) histories).\nPrint c20r_mismatches.\n")
-		sb.WriteString("Definition c20r_ncases := Eval vm_compute in length (concat histories).\nPrint c20r_ncases.\n")
+		sb.WriteString("Definition c20r_ncases := Eval vm_compute in fold_left (fun n (h : list (rop * robs)) => (n + N.of_nat (length h))%N) histories 0%N.\nPrint c20r_ncases.\n")
 		name := "CasesC20R.v"
 		if s > 0 {
 			name = fmt.Sprintf("CasesC20R_%d.v", s)
@@ -345,100 +346,244 @@ func c20rRequest(sr *EventRecorder) (EventsMap, bool) {
 	}
 }
 
-func c20rCount(m EventsMap) int {
-	n := 0
-	for _, l := range m {
-		n += len(l)
-	}
-	return n
+// ---------------------------------------------------------------- the event loop (New, channels, cache, save timer, restart)
+//
+// A scenario is a string over  E (send the next event and wait until the loop has taken it)
+//                              R (history request)   S (wait for the save timer to write the file)
+//                              X (restart: a second New() on the same file; only right after S)
+// Events are told apart by their payload (k = sequence number): k%5 -> SP login with URL .../k,
+// auth with AuthType 1000+k, ssh / x509 certificate valid k hours; the single web login is k = 0.
+// Creation times are projected to k (stamps of the real clock are not compared).
+
+type c20rLoop struct {
+	name   string
+	script string
+	segs   []string // Coq: one list of (lop, lobs) per process life
+	cur    []string
+	hits   []verifHit
+	desc   []string
 }
 
-func c20rEndToEnd(t *testing.T, res *verifResult, file string) {
+func c20rLoopEvent(sr *EventRecorder, k int, now time.Time) (coq string, user string, wait func() int) {
+	user = []string{"alice", "bob"}[k%2]
+	u := coqPacked([]byte(user))
+	switch {
+	case k == 0:
+		sr.WebLoginChannel <- user
+		return fmt.Sprintf("LRec (RWeb %s %s)", coqZ(0), u), user, func() int { return len(sr.WebLoginChannel) }
+	case k%5 == 1:
+		sr.AuthChannel <- &AuthInfo{AuthType: uint(1000 + k), Username: user, VIPAuthType: uint8(k % 2)}
+		return fmt.Sprintf("LRec (RAuth %s %s %d %d)", coqZ(int64(k)), u, 1000+k, k%2), user, func() int { return len(sr.AuthChannel) }
+	case k%5 == 2:
+		sr.SshCertChannel <- &ssh.Certificate{ValidPrincipals: []string{user}, ValidBefore: uint64(now.Add(time.Duration(k) * time.Hour).Unix())}
+		return fmt.Sprintf("LRec (RCert %s %s %d true false)", coqZ(int64(k)), u, k*3600*1000), user, func() int { return len(sr.SshCertChannel) }
+	case k%5 == 3:
+		sr.X509CertChannel <- &x509.Certificate{Subject: pkix.Name{CommonName: user}, NotAfter: now.Add(time.Duration(k) * time.Hour)}
+		return fmt.Sprintf("LRec (RCert %s %s %d false true)", coqZ(int64(k)), u, k*3600*1000), user, func() int { return len(sr.X509CertChannel) }
+	default:
+		url := fmt.Sprintf("https://sp.example/%d", k)
+		sr.ServiceProviderLoginChannel <- &SPLoginInfo{URL: url, Username: user}
+		return fmt.Sprintf("LRec (RSP %s %s %s)", coqZ(int64(k)), u, coqPacked([]byte(url))), user, func() int { return len(sr.ServiceProviderLoginChannel) }
+	}
+}
+
+// which event is this?  (-1: none of ours)
+func c20rLoopIdentity(e EventType) int {
+	switch {
+	case e.WebLogin:
+		return 0
+	case e.AuthType >= 1000:
+		return int(e.AuthType) - 1000
+	case e.Ssh || e.X509:
+		if e.LifetimeSeconds%3600 == 0 {
+			return int(e.LifetimeSeconds / 3600)
+		}
+		return -1
+	case strings.HasPrefix(e.ServiceProviderUrl, "https://sp.example/"):
+		var k int
+		fmt.Sscanf(e.ServiceProviderUrl, "https://sp.example/%d", &k)
+		return k
+	}
+	return -1
+}
+
+func c20rLoopDump(m EventsMap) (string, map[string][]int) {
+	var users []string
+	for u := range m {
+		users = append(users, u)
+	}
+	sort.Strings(users)
+	ids := map[string][]int{}
+	var parts []string
+	for _, u := range users {
+		var evs []string
+		for _, e := range m[u] {
+			k := c20rLoopIdentity(e)
+			ids[u] = append(ids[u], k)
+			e.CreateTime = uint64(int64(k))
+			evs = append(evs, "("+c20rCoqEv(e, 0)+")")
+		}
+		parts = append(parts, fmt.Sprintf("(%s, [%s])", coqPacked([]byte(u)), strings.Join(evs, "; ")))
+	}
+	return "[" + strings.Join(parts, "; ") + "]", ids
+}
+
+func c20rSameIDs(a, b map[string][]int) bool {
+	for _, u := range []string{"alice", "bob"} {
+		if fmt.Sprint(a[u]) != fmt.Sprint(b[u]) {
+			return false
+		}
+	}
+	return true
+}
+
+func (sc *c20rLoop) run(t *testing.T, file string) {
 	os.Remove(file)
-	sr, err := New(file, testlogger.New(t))
+	logger := testlogger.New(t)
+	sr, err := New(file, logger)
 	if err != nil {
-		t.Fatal(err)
+		t.Error(err)
+		return
 	}
 	now := time.Now()
-	sends := []func(){
-		func() { sr.WebLoginChannel <- "alice" },
-		func() { sr.AuthChannel <- &AuthInfo{AuthType: AuthTypeU2F, Username: "alice"} },
-		func() {
-			sr.SshCertChannel <- &ssh.Certificate{ValidPrincipals: []string{"alice"}, ValidBefore: uint64(now.Add(time.Hour).Unix())}
-		},
-		func() { sr.ServiceProviderLoginChannel <- &SPLoginInfo{URL: "https://app.example.com/cb", Username: "alice"} },
-		func() {
-			sr.X509CertChannel <- &x509.Certificate{Subject: pkix.Name{CommonName: "bob"}, NotAfter: now.Add(16 * time.Hour)}
-		},
-		func() { sr.WebLoginChannel <- "bob" },
+	k := 0
+	sent := map[string][]int{}  // newest first, everything sent so far
+	saved := map[string][]int{} // what had been sent when the last save window closed
+	lastEvent := time.Now()
+	cs := map[string]interface{}{"scenario": sc.name, "script": sc.script}
+	fail := func(key, oracle, what string, obs interface{}) {
+		sc.hits = append(sc.hits, verifHit{Key: key, Oracle: oracle, Kind: "history", What: sc.name + " (" + sc.script + "): " + what, Case: cs, Observed: obs})
 	}
-	for i, send := range sends {
-		send()
-		// the loop takes from six channels in no fixed order: wait until this one is recorded
-		ok := false
-		for w := 0; w < 400 && !ok; w++ {
-			m, got := c20rRequest(sr)
-			ok = got && c20rCount(m) == i+1
+	for _, op := range sc.script {
+		switch op {
+		case 'E':
+			coq, user, pending := c20rLoopEvent(sr, k, now)
+			for w := 0; w < 1000 && pending() > 0; w++ {
+				time.Sleep(2 * time.Millisecond)
+			}
+			sent[user] = append([]int{k}, sent[user]...)
+			sc.cur = append(sc.cur, "("+coq+", LNone)")
+			lastEvent = time.Now()
+			k++
+		case 'R':
+			m, ok := c20rRequest(sr)
 			if !ok {
-				time.Sleep(5 * time.Millisecond)
+				fail("C20:harness:eventloop", "harness", "the recorder does not answer a history request", nil)
+				return
+			}
+			coq, ids := c20rLoopDump(m)
+			sc.cur = append(sc.cur, "(LRequest, LAnswer "+coq+")")
+			if !c20rSameIDs(ids, sent) {
+				fail("C20:loop-request-stale", "a history request is not answered with the events recorded so far", fmt.Sprintf("recorded %v (newest first), answered %v", sent, ids), ids)
+			}
+		case 'S':
+			deadline := lastEvent.Add(12 * time.Second)
+			var mod time.Time
+			if st, err := os.Stat(file); err == nil {
+				mod = st.ModTime()
+			}
+			written := false
+			for time.Now().Before(deadline) && !written {
+				if st, err := os.Stat(file); err == nil && st.Size() > 0 && st.ModTime().After(mod) && time.Since(lastEvent) > 4*time.Second {
+					written = true
+				} else {
+					time.Sleep(50 * time.Millisecond)
+				}
+			}
+			if !written {
+				fail("C20:not-saved", "the recorder does not save its history after events", "no save within 12 s of the last event", nil)
+				return
+			}
+			time.Sleep(150 * time.Millisecond)
+			saved = map[string][]int{}
+			for u, l := range sent {
+				saved[u] = append([]int(nil), l...)
+			}
+			// what is in the file now (decoded by the package's own loader)
+			lm, err := loadEvents(file)
+			if err != nil {
+				t.Error(err)
+				return
+			}
+			tmp := &EventRecorder{eventsMap: lm}
+			var last *Events
+			coq, ids := c20rLoopDump(tmp.getEventsList(&last).Events)
+			sc.cur = append(sc.cur, "(LSave, LFile "+coq+")")
+			if !c20rSameIDs(ids, sent) {
+				fail("C20:loop-save-stale", "the saved history lacks events recorded before the save", fmt.Sprintf("recorded %v (newest first), file holds %v", sent, ids), ids)
+			}
+		case 'X':
+			sc.segs = append(sc.segs, "["+strings.Join(sc.cur, ";\n    ")+"]")
+			sc.cur = nil
+			sr, err = New(file, logger)
+			if err != nil {
+				t.Error(err)
+				return
+			}
+			m, ok := c20rRequest(sr)
+			if !ok {
+				fail("C20:harness:eventloop", "harness", "the restarted recorder does not answer", nil)
+				return
+			}
+			coq, ids := c20rLoopDump(m)
+			sc.cur = append(sc.cur, "(LRequest, LAnswer "+coq+")")
+			if !c20rSameIDs(ids, saved) {
+				fail("C20:loop-restart-lost", "a restart after a completed save does not come back with the events recorded before the save, in order", fmt.Sprintf("recorded before the save %v (newest first), after restart %v", saved, ids), ids)
+			}
+			sent = map[string][]int{}
+			for u, l := range ids {
+				sent[u] = append([]int(nil), l...)
 			}
 		}
-		if !ok {
-			res.hit(verifHit{Key: "C20:harness:eventloop", Oracle: "harness", What: fmt.Sprintf("event %d sent to the recorder's channel was not recorded", i), Case: "e2e"})
-			return
-		}
 	}
-	before, _ := c20rRequest(sr)
-	// the loop saves 5 s after the last event
-	deadline := time.Now().Add(9 * time.Second)
-	for time.Now().Before(deadline) {
-		if st, err := os.Stat(file); err == nil && st.Size() > 0 {
-			break
-		}
-		time.Sleep(100 * time.Millisecond)
-	}
-	if _, err := os.Stat(file); err != nil {
-		res.hit(verifHit{Key: "C20:not-saved", Oracle: "the recorder does not save its history after events", Kind: "history", What: "no history file 9 s after the last event", Case: "e2e"})
-		return
-	}
-	time.Sleep(200 * time.Millisecond)
-	sr2, err := New(file, testlogger.New(t))
-	if err != nil {
-		t.Fatal(err)
-	}
-	after, ok := c20rRequest(sr2)
-	if !ok {
-		res.hit(verifHit{Key: "C20:harness:eventloop", Oracle: "harness", What: "restarted recorder does not answer", Case: "e2e"})
-		return
-	}
-	res.bump("e2e_restart")
-	res.eval("e2e", true)
-	kinds := func(l []EventType) []string {
-		var out []string
-		for _, e := range l {
-			switch {
-			case e.Ssh:
-				out = append(out, "ssh")
-			case e.X509:
-				out = append(out, "x509")
-			case e.WebLogin:
-				out = append(out, "web")
-			case e.ServiceProviderUrl != "":
-				out = append(out, "sp")
-			default:
-				out = append(out, fmt.Sprintf("auth:%d", e.AuthType))
+	sc.segs = append(sc.segs, "["+strings.Join(sc.cur, ";\n    ")+"]")
+}
+
+func c20rLoops(t *testing.T, res *verifResult, dir string) {
+	scripts := []string{"EREESX", "EERSXRESXR", "ERERSXR", "ESERESXR", "ERSRERESXR", "EEEEEERSXEREESXR"}
+	if verifThorough() {
+		rng := verifRand()
+		for i := 0; i < 14; i++ {
+			var sb strings.Builder
+			sb.WriteString("E")
+			n := 4 + rng.Intn(8)
+			for j := 0; j < n; j++ {
+				sb.WriteByte("EEERR"[rng.Intn(5)])
 			}
-		}
-		return out
-	}
-	if fmt.Sprint(kinds(before["alice"])) != "[sp ssh auth:3 web]" || fmt.Sprint(kinds(before["bob"])) != "[web x509]" {
-		res.hit(verifHit{Key: "C20:eventloop-record", Oracle: "the event loop does not record what it is sent, newest first", Kind: "history",
-			What: fmt.Sprintf("alice %v bob %v", kinds(before["alice"]), kinds(before["bob"])), Case: "e2e"})
-	}
-	for _, u := range []string{"alice", "bob"} {
-		if !c20rSame(before[u], after[u]) {
-			res.hit(verifHit{Key: "C20:reload-order", Oracle: "a save and restart changes the order of a user's history", Kind: "history",
-				What: fmt.Sprintf("through New(): user %s before restart %v, after %v", u, kinds(before[u]), kinds(after[u])), Case: "e2e", Observed: kinds(after[u])})
+			sb.WriteString("ESXR")
+			if rng.Intn(2) == 0 {
+				sb.WriteString("EREESXR")
+			}
+			scripts = append(scripts, sb.String())
 		}
 	}
+	var wg sync.WaitGroup
+	scs := make([]*c20rLoop, len(scripts))
+	for i, s := range scripts {
+		scs[i] = &c20rLoop{name: fmt.Sprintf("loop%d", i), script: s}
+		wg.Add(1)
+		go func(sc *c20rLoop, file string) {
+			defer wg.Done()
+			sc.run(t, file)
+		}(scs[i], filepath.Join(dir, fmt.Sprintf("loop_%d.gob", i)))
+	}
+	wg.Wait()
+	var cases, idx []string
+	for i, sc := range scs {
+		for _, h := range sc.hits {
+			res.hit(h)
+		}
+		res.bump("loop_scenarios")
+		res.eval("loop|"+sc.script, true)
+		cases = append(cases, " ["+strings.Join(sc.segs, ";\n   ")+"]")
+		idx = append(idx, fmt.Sprintf("%d\t%s %s", i, sc.name, sc.script))
+	}
+	var sb strings.Builder
+	sb.WriteString(coqCaseHeader)
+	sb.WriteString("From KM Require Import Base.Cases Model.Events.\n")
+	sb.WriteString("Definition scenarios : list (list (list (lop * lobs))) := [\n" + strings.Join(cases, ";\n") + "\n].\n")
+	sb.WriteString("Definition c20l_mismatches := Eval vm_compute in mismatches (fun segs => negb (lcheck_segs None 0%Z segs)) scenarios.\nPrint c20l_mismatches.\n")
+	sb.WriteString("Definition c20l_ncases := Eval vm_compute in length scenarios.\nPrint c20l_ncases.\n")
+	ioutil.WriteFile(filepath.Join(verifOut(), "CasesC20L.v"), []byte(sb.String()), 0644)
+	ioutil.WriteFile(filepath.Join(verifOut(), "CasesC20L.idx"), []byte(strings.Join(idx, "\n")+"\n"), 0644)
 }
